@@ -824,6 +824,121 @@ theorem delete_validated {s s' : Sys} {th : Tid} {n : Nat} {op : DelOp} {c : Int
       exact hc.2
   · cases h
 
+/-! ### the table lock is one lock per table -/
+
+/-- The table locks are ONE lock per table id (`TransactionManager::get_lock_for_table` gets or
+creates the entry of `lock_map`, so every user of a table's lock — DELETE, DROP TABLE, the
+compactor — locks the same mutex): at most one holder per table. -/
+def LockInv (s : Sys) : Prop := (s.tlocks.map (·.1)).Nodup
+
+@[simp] theorem setTh_tlocks (s : Sys) (th : Tid) (t : Th) : (setTh s th t).tlocks = s.tlocks := rfl
+@[simp] theorem withK_tlocks (s : Sys) (k : K) : (withK s k).tlocks = s.tlocks := rfl
+@[simp] theorem unlockAll_tlocks (s : Sys) (th : Tid) :
+    (unlockAll s th).tlocks = s.tlocks.filter (fun p => !(p.2 == th)) := rfl
+@[simp] theorem unlockActor_tlocks (s : Sys) (a : Nat) :
+    (unlockActor s a).tlocks = s.tlocks.filter (fun p => !(p.2.1 == a)) := rfl
+
+theorem nodup_filter_fst {l : List (Nat × Tid)} (f : Nat × Tid → Bool)
+    (h : (l.map (·.1)).Nodup) : ((l.filter f).map (·.1)).Nodup :=
+  List.Nodup.sublist (List.Sublist.map _ List.filter_sublist) h
+
+theorem heldBy_none {s : Sys} {t : Nat} (h : (heldBy s t).isSome = false) :
+    t ∉ s.tlocks.map (·.1) := by
+  intro hm
+  obtain ⟨p, hp, hpt⟩ := List.mem_map.mp hm
+  simp only [heldBy] at h
+  cases hf : s.tlocks.find? (fun p => p.1 == t) with
+  | some q => simp [hf] at h
+  | none =>
+      have := List.find?_eq_none.mp hf p hp
+      simp [hpt] at this
+
+theorem nodup_cons_fst {s : Sys} {t : Nat} {th : Tid} (h : (s.tlocks.map (·.1)).Nodup)
+    (hn : ¬ (heldBy s t).isSome = true) : (((t, th) :: s.tlocks).map (·.1)).Nodup := by
+  simp only [List.map_cons]
+  exact List.nodup_cons.mpr ⟨heldBy_none (by simpa using hn), h⟩
+
+macro "lock_close" : tactic => `(tactic| (
+  first
+  | assumption
+  | (apply nodup_filter_fst; assumption)
+  | (apply nodup_filter_fst; apply nodup_filter_fst; assumption)
+  | (apply nodup_cons_fst <;> assumption)))
+
+macro "lock_auto" : tactic => `(tactic| (
+  repeat' (split at ‹_ = some _›)
+  all_goals (first | (cases ‹_ = some _›; done) | skip)
+  all_goals (cases ‹_ = some _›)
+  all_goals (simp only [LockInv, setTh_tlocks, withK_tlocks, unlockAll_tlocks, unlockActor_tlocks] at *)
+  all_goals lock_close))
+
+theorem lockinv_step {s s' : Sys} {a : Act} (hi : LockInv s) (h : astep s a = some s') :
+    LockInv s' := by
+  cases a <;> simp only [astep] at h
+  case cmdBegin th c => simp only [stepCmdBegin] at h; lock_auto
+  case bound th => simp only [stepBound] at h; lock_auto
+  case pin th => simp only [stepPin] at h; lock_auto
+  case unpin th e => simp only [stepUnpin] at h; lock_auto
+  case txnPinned th m t => simp only [stepTxnPinned] at h; lock_auto
+  case txnLocked th => simp only [stepTxnLocked] at h; lock_auto
+  case lockBegin th => simp only [stepLockBegin] at h; lock_auto
+  case commitBegin th => simp only [stepCommitBegin] at h; lock_auto
+  case commitA th => simp only [stepCommitA] at h; lock_auto
+  case append th => simp only [stepAppend] at h; lock_auto
+  case committed th => simp only [stepCommitted] at h; lock_auto
+  case createApplied th => simp only [stepCreateApplied] at h; lock_auto
+  case dropApplied th => simp only [stepDropApplied] at h; lock_auto
+  case cpPinned th => simp only [stepCpPinned] at h; lock_auto
+  case cpTable th t => simp only [stepCpTable] at h; lock_auto
+  case cpLocked th t =>
+    simp only [stepCpLocked] at h
+    split at h
+    · cases h
+    rename_i hg
+    have hfree : ¬ (heldBy s t).isSome = true := by
+      intro hh
+      apply hg
+      simp [hh]
+    lock_auto
+  case cpEnd th => simp only [stepCpEnd] at h; lock_auto
+  case vacFind th => simp only [stepVacFind] at h; lock_auto
+  case vacUnlinked th key => simp only [stepVacUnlinked] at h; lock_auto
+  case rdOpen th => simp only [stepRdOpen] at h; lock_auto
+  case rdBatch th n => simp only [stepRdBatch] at h; lock_auto
+  case cmdDone th => simp only [stepCmdDone] at h; lock_auto
+  case panic th => simp only [stepPanic] at h; lock_auto
+
+/-- ... in every reachable state of every schedule -/
+theorem lockinv_reachable : ∀ (acts : List Act) {s s' : Sys}, LockInv s → run s acts = some s' →
+    LockInv s'
+  | [], s, s', h, hr => by simp only [run] at hr; cases hr; exact h
+  | a :: r, s, s', h, hr => by
+      simp only [run] at hr
+      split at hr
+      · rename_i s1 h1
+        exact lockinv_reachable r (lockinv_step h h1) hr
+      · cases hr
+
+/-- Compaction, DELETE and DROP TABLE of one table exclude each other: two holders of a table's
+lock are the same thread. -/
+theorem nodup_fst_unique : ∀ {l : List (Nat × Tid)}, (l.map (·.1)).Nodup → ∀ {t : Nat} {a b : Tid},
+    (t, a) ∈ l → (t, b) ∈ l → a = b
+  | [], _, _, _, _, h1, _ => nomatch h1
+  | p :: r, hn, t, a, b, h1, h2 => by
+      simp only [List.map_cons, List.nodup_cons] at hn
+      rcases List.mem_cons.mp h1 with e1 | m1 <;> rcases List.mem_cons.mp h2 with e2 | m2
+      · rw [← e1] at e2; exact (Prod.mk.inj e2).2.symm
+      · exact absurd (List.mem_map.mpr ⟨(t, b), m2, by rw [← e1]⟩) hn.1
+      · exact absurd (List.mem_map.mpr ⟨(t, a), m1, by rw [← e2]⟩) hn.1
+      · exact nodup_fst_unique hn.2 m1 m2
+
+theorem table_lock_exclusive {s : Sys} (h : LockInv s) {t : Nat} {th1 th2 : Tid}
+    (h1 : (t, th1) ∈ s.tlocks) (h2 : (t, th2) ∈ s.tlocks) : th1 = th2 :=
+  nodup_fst_unique h h1 h2
+
+example : LockInv (stateOf (wPinThenCompact)) :=
+  lockinv_reachable _ (show LockInv init from List.nodup_nil) (run_stateOf (by decide))
+
 /-! ### a compaction whose output is empty (every selected row is deleted) -/
 
 theorem applyOps_dels_other {t t' : Nat} (hne : t' ≠ t) : ∀ (dels : List Key) {s s' : Snap},
